@@ -2,12 +2,20 @@
 
 Tie: translator G7 (the mask / fill branches of _mean_cache, exact_predictive_mean, exact_predictive_covar and
 _exact_predictive_covar_missing_obs are regenerated into lean/GPVerif/Gen/ExactAlgebra.lean on every run, proved equal
-to the deleted-data closed form in Props/C16.lean and executed by the driver) AND correspondence.  For every (model, NaN pattern) the harness evaluates the model's own prior densely, ships it
-with the observation mask as exact rationals to `lean/drivers/C16.lean` (GPVerif/Model/ExactGP.lean at ℚ: the
-`mask` / `fill` code paths and, by the theorems of GPVerif/Props/C16.lean, the deleted-data closed form), and compares
-with the real `model(x*)` under the policy — for every order of switching policies on one model object —, with the
-exact MLL (rescaled by the observed count), with `expected_log_prob` / `log_marginal`, and with a fresh model built
-on the observed subset.  No NaN may appear in any output.
+to the deleted-data closed form in Props/C16.lean and executed by the driver) AND correspondence.  For every (model, NaN
+pattern) the harness evaluates the model's own prior densely, ships it with the observation mask as exact rationals to
+`lean/drivers/C16.lean` (GPVerif/Model/ExactGP.lean at ℚ: the `mask` / `fill` code paths and, by the theorems of
+GPVerif/Props/C16.lean, the deleted-data closed form), and compares with the real `model(x*)` under the policy — for
+every order of switching policies on one model object, for every way of ARRIVING at the pattern (fresh strategy, or a
+model that already predicted under every policy with ANOTHER pattern / other target values and then received the
+pattern through `set_train_data`), in every settings cell (`fast_pred_var`, `max_eager_kernel_size` below / at / above
+the joint size, `detach_test_caches`) —, with the exact MLL (rescaled by the observed count), with `expected_log_prob` /
+`log_marginal`, and with a fresh model built on the observed subset.  No NaN may appear in any output.
+
+When a proof about the generated code, the translator or the driver breaks, `search` derives from WHAT broke which
+settings cells / histories to try first (new branch atoms of the generated function whose theorem failed; an exact probe
+of the generated `exact_prediction` against the model over all branch configurations) and runs them under a wall-clock
+budget; the specification side falls back to `drivers/C16spec.lean` (hand-written model only) when the main driver dies.
 """
 import contextlib
 import copy
@@ -28,25 +36,40 @@ _T0 = time.time()          # the module is imported when the run starts: origin 
 
 ID = "C16"
 PROP_MODULES = ["GPVerif.Props.C16"]
-BUILD_TARGETS = ["GPVerif.Props.C16", "GPVerif.Gen.ExactAlgebra", "GPVerif.Model.ExactGP", "GPVerif.Model.LDL",
-                 "GPVerif.Model.Proto"]
-RULE = ("random exact GPs (single-output Gaussian / FixedNoise likelihood, model-batch b=2 with per-element patterns, "
-        "Kronecker multitask t=2 with per-task patterns) x NaN patterns of the training targets (none, every single "
-        "missing, every all-but-one, random; thorough: all 2^n-1 patterns for n<=6) x policy sequences on ONE model "
-        "object (mask, fill, mask>fill, fill>mask, mask>fill>mask, fill>mask>fill, ignore>mask, ignore>fill) x "
-        "fast_pred_var on/off; one case = (model, pattern, sequence, step); distinct = distinct (model, pattern, "
-        "sequence, fast); non-trivial = at least one target missing and at least one observed")
+BUILD_TARGETS = ["GPVerif.Props.C16", "GPVerif.Gen.ExactAlgebra", "GPVerif.Model.ExactGP", "GPVerif.Model.NanDriver",
+                 "GPVerif.Model.LDL", "GPVerif.Model.Proto"]
+RULE = ("random exact GPs (single-output Gaussian / FixedNoise likelihood, model-batch b=2 with per-element DIFFERENT "
+        "patterns, Kronecker multitask t=2 with per-task patterns) x NaN patterns of the training targets (none, every "
+        "single missing, every all-but-one, random; batches: one element fully observed next to one with missing "
+        "entries, disjoint, equal; thorough: all 2^n-1 patterns for n<=6) x policy sequences on ONE model object (mask, "
+        "fill, mask>fill, fill>mask, mask>fill>mask, fill>mask>fill, ignore>mask, ignore>fill, ignore>fill>mask) x how "
+        "the pattern arrived (fresh strategy | the object predicted under ignore/mask/fill with ANOTHER pattern and other "
+        "target values, then set_train_data(targets=...) / (inputs, targets) / strict=False) x per step: fast_pred_var "
+        "on/off, max_eager_kernel_size in {default, 0, n, n+n*} (lazy / eager split), detach_test_caches; one case = "
+        "(model, pattern, run, step); distinct = distinct (model, pattern, sequence, arrival, cells); non-trivial = at "
+        "least one target missing and at least one observed")
 TRUSTED = ["translator harness/translate/g7_exact_algebra.py (Python AST of _mean_cache mask/fill, exact_predictive_mean, "
            "exact_predictive_covar, _exact_predictive_covar_missing_obs -> lean/GPVerif/Gen/ExactAlgebra.lean, executed "
-           "by the driver and compared with the real code on every case)",
+           "by the driver in the eager AND the lazy branch configuration and compared with the real code on every case)",
            "torch / linear_operator primitives (Cholesky, MaskedLinearOperator)",
            "harness/props/_gpmodels.py (dense evaluation of the model's own prior; documented noise covariance)",
            "float64 <-> exact comparison with tolerance max(64 n kappa 2^-52, 1e-9) * scale + 1e-12; log of the exact "
            "determinant taken in float64"]
 ASSUMPTIONS = ["'mask' on a batch of targets masks an entry for the whole batch when it is NaN in any batch element "
-               "(documented): the deleted-data reference for 'mask' deletes the union of the missing entries",
+               "(documented; ExactGP.obsUnion, theorem mask_batch_deletes_union): the deleted-data reference for 'mask' "
+               "deletes the union of the missing entries; 'fill' is judged per batch element (fill_batch_elementwise)",
                "kernel matrices are Gram matrices of a covariance function (hypothesis of mask_eq_delete)"]
 EXHAUSTIVE = False
+
+
+def generate(ctx):
+    """Translator G7 (shared with C01)."""
+    try:
+        _c01.generate(ctx)
+    except Exception as e:
+        ctx.notes["gen_error"] = f"{type(e).__name__}: {e}"[:600]
+        raise
+
 
 def fill_value():
     """The fill value the implementation uses under 'fill' (read from the settings class at run time; the theorems hold
@@ -54,9 +77,39 @@ def fill_value():
     from gpytorch import settings
     return float(settings.observation_nan_policy._fill_value)
 
-SEQS_QUICK = [("mask",), ("fill",), ("mask", "fill"), ("fill", "mask"), ("mask", "fill", "mask"),
-              ("fill", "mask", "fill")]
-SEQS_THOROUGH = SEQS_QUICK + [("ignore", "mask"), ("ignore", "fill"), ("ignore", "fill", "mask")]
+
+SEQS_CORE = [("mask",), ("fill",), ("mask", "fill"), ("fill", "mask"), ("mask", "fill", "mask"),
+             ("fill", "mask", "fill")]
+SEQS_IGNORE_FIRST = [("ignore", "mask"), ("ignore", "fill"), ("ignore", "fill", "mask")]
+SEQS_QUICK = SEQS_CORE                       # (kept for replays of older payloads)
+SEQS_THOROUGH = SEQS_CORE + SEQS_IGNORE_FIRST
+
+# how the NaN pattern under test arrives on the model object
+ENTRIES = ("fresh", "upd:targets", "upd:inputs+targets", "upd:targets:nonstrict")
+ENTRY_WEIGHTS = (4, 3, 1, 1)
+# what the object did BEFORE the update (with another pattern and other target values): policies it predicted under
+PRE_SEQS = [("mask",), ("fill",), ("mask",), ("fill",), ("ignore",), ("mask", "fill"), ("fill", "mask"),
+            ("ignore", "fill", "mask")]
+# settings.max_eager_kernel_size relative to the joint size N + S (default 512 = eager for every generated size)
+EAGER_KINDS = ("default", "0", "n", "n+s")
+
+
+def eager_limit(kind, N, Sx):
+    return {"default": None, "0": 0, "n": N, "n+s": N + Sx}[kind]
+
+
+def is_eager(kind, N, Sx):
+    lim = eager_limit(kind, N, Sx)
+    if lim is None:
+        from gpytorch import settings
+        lim = settings.max_eager_kernel_size.value()
+    return N + Sx <= lim
+
+
+def cfg_code(P, eager, fast=False, detach=False):
+    """Branch configuration of the generated code (bit mask of drivers/C16.lean): the eager split hands dense tensors on
+    (`ttIsTensor`), the lazy split LinearOperators; `dim() == 2` iff unbatched."""
+    return (1 if fast else 0) + (4 if detach else 0) + ((8 + 32) if eager else 0) + (16 if tuple(P["B"]) == () else 0)
 
 
 # ------------------------------------------------------------------ generation
@@ -87,8 +140,37 @@ def patterns(rng, size, quick, k_random=4):
     return list(dict.fromkeys(out))
 
 
-def build_model(ctx, kind, idx, thorough=False):
-    rng = ctx.rng(f"c16:model:{kind}:{idx}")
+def batch_patterns(rng, nb, n):
+    """Per-batch-element patterns (flattened (nb, n), row-major) that DIFFER between the elements: 'fill' must condition
+    element b on its own pattern, 'mask' on the entries observed in every element."""
+    full = [True] * n
+    out = []
+
+    def one_missing():
+        j = rng.randrange(n)
+        return [i != j for i in range(n)]
+
+    def some_missing():
+        while True:
+            p = [rng.random() < 0.55 for _ in range(n)]
+            if any(p) and not all(p):
+                return p
+    for b in range(nb):                       # one element with missing entries, all others fully observed
+        rows = [list(full) for _ in range(nb)]
+        rows[b] = one_missing() if rng.random() < 0.5 else some_missing()
+        out.append(rows)
+    rows = [one_missing() for _ in range(nb)]  # every element misses something (mostly different entries)
+    out.append(rows)
+    rows = [some_missing() for _ in range(nb)]
+    out.append(rows)
+    same = some_missing()                      # control: the same pattern in every element
+    out.append([list(same) for _ in range(nb)])
+    flat = [tuple(v for row in rows for v in row) for rows in out]
+    return list(dict.fromkeys(flat))
+
+
+def build_model(ctx, kind, idx, thorough=False, label="model"):
+    rng = ctx.rng(f"c16:{label}:{kind}:{idx}")
     with warnings.catch_warnings():
         warnings.simplefilter("ignore")
         if kind == "single":
@@ -134,25 +216,41 @@ def dense(model, lik, tx, ty_clean, desc, test_x):
             "y": ex(yflat, 1)}
 
 
-def nan_line(P, b, obs):
+def line_codes(P, all_codes=False):
+    """Branch configurations the driver evaluates the generated `exact_prediction` under: the eager and the lazy split
+    (fast_pred_var / detach_test_caches do not change the generated value under mask / fill — that they do not is part
+    of what `search` probes with `all_codes`)."""
+    if all_codes:
+        return [c for c in range(64) if not (c // 2) % 2]        # every configuration with skip off
+    return [cfg_code(P, True), cfg_code(P, False)]
+
+
+def nan_line(P, b, obs, all_codes=False):
     N, Sx = P["N"], P["S"]
     return " ".join(["nan", str(N), str(Sx), C.mat_tokens(P["J"][b]), C.vec_tokens(P["mj"][b]),
                      C.mat_tokens(P["Strain"][b]), C.vec_tokens(P["y"][b]),
                      f"{N} 1 " + " ".join("1" if o else "0" for o in obs), f"1 1 {C.rat_str(fill_value())}",
-                     f"1 1 {C.rat_str(fill_value())}",
-                     # branch configuration of the generated code: eager split (joint <= 512), dim()==2 iff unbatched
-                     str((8 if N + Sx <= 512 else 0) + (16 if tuple(P["B"]) == () else 0))])
+                     f"1 1 {C.rat_str(fill_value())}"] + [str(c) for c in line_codes(P, all_codes)])
 
 
-def parse_nan(rep):
+def union_line(obs_full):
+    nb, N = obs_full.shape
+    return f"union {nb} {N} {nb} {N} " + " ".join("1" if v else "0" for v in obs_full.reshape(-1))
+
+
+def parse_nan(rep, codes):
     import numpy as np
     if not rep.startswith("ok "):
         return None
     parts = rep[3:].split(" | ")
     mat = lambda p: np.array(C.fmat_to_float(C.parse_mat(p.split())[0]), dtype=float)
     det = None if parts[7] == "nodet" else Fraction(parts[7])
-    g = [None if p.strip() == "nogen" else mat(p) for p in parts[8:12]]
-    gen = {"mask": (g[0], g[1]), "fill": (g[2], g[3])} if len(g) == 4 else {}
+    g = [None if p.strip() == "nogen" else mat(p) for p in parts[8:]]
+    gen = {}
+    for k, code in enumerate(codes):
+        if len(g) >= 4 * k + 4:
+            gen[("mask", code)] = (g[4 * k], g[4 * k + 1])
+            gen[("fill", code)] = (g[4 * k + 2], g[4 * k + 3])
     return {"gen": gen, "cnt": int(parts[0]), "meanMask": mat(parts[1])[:, 0], "covMask": mat(parts[2]),
             "meanFill": mat(parts[3])[:, 0], "covFill": mat(parts[4]), "covIgn": mat(parts[5]),
             "quad": Fraction(parts[6]), "det": det}
@@ -163,16 +261,45 @@ def log_frac(f):
     return math.log(f.numerator) - math.log(f.denominator)
 
 
+_DRIVER = {"name": "C16"}
+
+
+def drive(ctx, lines, workers=4):
+    """Run the request lines through drivers/C16.lean; when that driver no longer builds / dies (regenerated file
+    broken) fall back to drivers/C16spec.lean — the hand-written, theorem-backed model only — so that every case is
+    still judged against the specification."""
+    if _DRIVER["name"] == "C16":
+        try:
+            return _lines_parallel("C16", lines, workers)
+        except RuntimeError as e:
+            ctx.broke("driver", "drivers/C16.lean (imports the regenerated Gen/ExactAlgebra.lean)", str(e)[-1500:])
+            ctx.notes["driver_fallback"] = "drivers/C16spec.lean (hand-written model only; generated values = nogen)"
+            _DRIVER["name"] = "C16spec"
+    return _lines_parallel("C16spec", lines, workers)
+
+
 # ------------------------------------------------------------------ real side
 
-def predict(model, test_x, policy, fast, desc):
-    """One prediction on the (un-reset) model object under `policy`."""
-    import torch
+def predict(model, test_x, cell, desc, light=False):
+    """One prediction on the (un-reset) model object under the cell {policy, fast, eager, detach}.
+    `light`: only run the call and evaluate the covariance (predictions whose values nobody reads: they fill caches)."""
     from gpytorch import settings as S
-    t, Sx = desc["tasks"], desc["s"] * desc["tasks"]
-    with warnings.catch_warnings(), S.observation_nan_policy(policy), S.fast_pred_var(fast):
+    t = desc["tasks"]
+    Sx = desc["s"] * t
+    N = desc["n"] * t
+    lim = eager_limit(cell.get("eager", "default"), N, Sx)
+    with warnings.catch_warnings(), contextlib.ExitStack() as st:
         warnings.simplefilter("ignore")
+        st.enter_context(S.observation_nan_policy(cell["policy"]))
+        st.enter_context(S.fast_pred_var(bool(cell.get("fast"))))
+        if lim is not None:
+            st.enter_context(S.max_eager_kernel_size(lim))
+        if cell.get("detach") is not None:
+            st.enter_context(S.detach_test_caches(bool(cell["detach"])))
         p = model(test_x)
+        if light:
+            p.covariance_matrix
+            return None
         mean, cov, var = p.mean.detach(), p.covariance_matrix.detach(), p.variance.detach()
         keys = sorted({k[1][0] for k in getattr(model.prediction_strategy, "_memoize_cache", {})
                        if isinstance(k, tuple) and k[0] == "mean_cache" and len(k[1]) == 1})
@@ -184,66 +311,59 @@ def predict(model, test_x, policy, fast, desc):
             "keys": keys, "tail": tail}
 
 
-# ------------------------------------------------------------------ correspondence
+def make_runs(rng, seqs, quick, force=None):
+    """The runs (one = arrival + policy sequence with a settings cell per step) of one (model, pattern).
+    `force` restricts the cells (used by `search`): dict with optional lists `entries`, `fast`, `eager`, `detach`."""
+    force = force or {}
+    runs = []
+    seq_list = list(seqs)
+    if quick:
+        core = [s for s in seq_list if s[0] != "ignore"]
+        ign = [s for s in seq_list if s[0] == "ignore"]
+        rng.shuffle(core)
+        rng.shuffle(ign)
+        seq_list = sorted(core[:4], key=len) + ign[:1]
+    for seq in seq_list:
+        fasts = force.get("fast", [False, True])
+        if quick and seq[0] == "ignore" and len(fasts) > 1:
+            fasts = [rng.choice(fasts)]
+        for fast in fasts:
+            if "entries" in force:
+                entry = rng.choice(force["entries"])
+            else:
+                entry = rng.choices(ENTRIES, weights=ENTRY_WEIGHTS)[0]
+            cells = []
+            for pol in seq:
+                cells.append({"policy": pol, "fast": fast, "eager": rng.choice(force.get("eager", EAGER_KINDS)),
+                              "detach": rng.choice(force.get("detach", [None, None, None, False, True]))})
+            run = {"seq": list(seq), "fast": fast, "entry": entry, "cells": cells}
+            if entry != "fresh":
+                pre = rng.choice(PRE_SEQS)
+                run["pre"] = [{"policy": pol, "fast": rng.random() < 0.5, "eager": rng.choice(EAGER_KINDS)} for pol in pre]
+                run["prev"] = rng.randrange(1 << 30)     # selects the previous pattern / target values
+            runs.append(run)
+    return runs
 
-def correspondence(ctx, extra=False):
-    import numpy as np
+
+def previous_targets(ty, pat, prev_pats, sel, shape_mask):
+    """Another NaN pattern (same shape) with OTHER target values: the state of the object before the update."""
+    import random
     import torch
-    torch.set_num_threads(2)
-    thorough = ctx.tier == "thorough" or extra
-    quick = not thorough
-    counts = {"single": 14, "batch": 5, "multi": 5} if quick else {"single": 24, "batch": 8, "multi": 8}
-    if os.environ.get("VERIF_C16_CASES"):
-        a, b_, c_ = [int(v) for v in os.environ["VERIF_C16_CASES"].split(",")]
-        counts = {"single": a, "batch": b_, "multi": c_}
-    seqs = SEQS_QUICK if quick else SEQS_THOROUGH
-    work, lines = [], []
-    T = C.Timer()
-    for kind, cnt in counts.items():
-        for idx in range(cnt):
-            model, lik, tx, ty, desc, test_x, rng = build_model(ctx, kind, idx, thorough)
-            P = dense(model, lik, tx, ty, desc, test_x)
-            N = P["N"]
-            ysize = ty.numel()
-            pats = patterns(rng, ysize, quick, k_random=3 if quick else 6)
-            if quick and kind != "single":
-                pats = pats[:6]
-            if not quick and ysize > 6:
-                rng.shuffle(pats)
-                pats = pats[:40]
-            for pat in pats:
-                obs_full = np.array(pat, dtype=bool).reshape(P["nb"], N) if kind == "batch" else \
-                    np.array(pat, dtype=bool).reshape(1, N)
-                if not obs_full.any(axis=0).any():
-                    continue
-                union = obs_full.all(axis=0)          # 'mask': observed iff observed in every batch element
-                if not union.any():
-                    ctx.count("skipped:mask-union-empty")
-                    continue
-                item = {"kind": kind, "idx": idx, "pat": [bool(v) for v in pat], "desc": desc, "P": P,
-                        "obs_full": obs_full, "union": union, "lines_mask": [], "lines_fill": []}
-                for b in range(P["nb"]):
-                    item["lines_mask"].append(nan_line(P, b, union))
-                    item["lines_fill"].append(nan_line(P, b, obs_full[b]))
-                lines += item["lines_mask"] + item["lines_fill"]
-                item["real"] = run_real(ctx, model, lik, tx, ty, desc, test_x, obs_full, union, seqs, rng, quick)
-                work.append(item)
-            ctx.count("models")
-    ctx.notes["phase1_s"] = round(T(), 1)
-    replies = _lines_parallel("C16", lines, 4 if quick else 10)
-    ctx.notes["phase2_s"] = round(T(), 1)
-    dist = {"missing_count": {}, "kind": {}}
-    for item in work:
-        compare(ctx, item, replies)
-        k = str(int((~item["obs_full"]).sum()))
-        dist["missing_count"][k] = dist["missing_count"].get(k, 0) + 1
-        dist["kind"][item["kind"]] = dist["kind"].get(item["kind"], 0) + 1
-    ctx.notes["distribution"] = dist
-    ctx.notes["driver_requests"] = len(set(lines))
-    ctx.notes["phase3_s"] = round(T(), 1)
+    r = random.Random(sel + 1)                 # target values: independent of how many candidate patterns there are
+    cands = [list(p) for p in prev_pats if list(p) != list(pat)]
+    if cands:
+        prev = random.Random(sel).choice(cands)
+    else:
+        prev = list(pat[1:]) + [pat[0]]
+        if prev == list(pat):
+            prev = [not v for v in pat]
+    delta = torch.tensor([r.uniform(-1.0, 1.0) for _ in range(ty.numel())], dtype=ty.dtype).reshape(ty.shape)
+    y_prev = ty.clone() + delta
+    y_prev[~shape_mask(prev)] = float("nan")
+    return prev, y_prev
 
 
-def run_real(ctx, model, lik, tx, ty, desc, test_x, obs_full, union, seqs, rng, quick):
+def run_real(ctx, model, lik, tx, ty, desc, test_x, obs_full, union, runs, prev_pats, extras=True):
     """Everything observed on the real code for one (model, pattern)."""
     import numpy as np
     import torch
@@ -251,35 +371,64 @@ def run_real(ctx, model, lik, tx, ty, desc, test_x, obs_full, union, seqs, rng, 
     from gpytorch import settings as S
     t = desc["tasks"]
     y_nan = ty.clone()
+    shape_mask = lambda pat: torch.as_tensor(np.array(pat, dtype=bool).reshape(tuple(ty.shape)))
     mask_t = torch.as_tensor(obs_full.reshape(ty.shape))
     y_nan[~mask_t] = float("nan")
+    pat = [bool(v) for v in obs_full.reshape(-1)]
     model.set_train_data(tx, y_nan, strict=False)
     out = {"seq": [], "rejected": []}
-    fasts = [False, True]
-    seq_list = list(seqs)
-    if quick:
-        rng.shuffle(seq_list)
-        seq_list = sorted(seq_list[:4], key=len)
-    first = True
-    for seq in seq_list:
-        for fast in fasts:
-            # the very first sequence after `set_train_data(new NaN pattern)` runs WITHOUT resetting anything: whatever the
-            # previous pattern's predictions cached on this object must have been invalidated by set_train_data itself
-            if not first:
-                G.reset_caches(model)
-            first = False
-            steps = []
-            used = []
-            for pol in seq:
-                used.append(pol)
+    for run in runs:
+        entry = run["entry"]
+        rec = dict(run)
+        if entry == "fresh":
+            G.reset_caches(model)
+        else:
+            # the object has ANOTHER pattern (and other target values), predicts under some policies, and only then
+            # receives the pattern under test: whatever it cached before must not survive in any output
+            if run.get("prev_pattern"):
+                prev, y_prev = previous_targets(ty, pat, [run["prev_pattern"]], run["prev"], shape_mask)
+            else:
+                prev, y_prev = previous_targets(ty, pat, prev_pats, run["prev"], shape_mask)
+            rec["prev_pattern"] = [bool(v) for v in prev]
+            model.set_train_data(tx, y_prev, strict=False)
+            G.reset_caches(model)
+            for cell in run["pre"]:
                 try:
-                    r = predict(model, test_x, pol, fast, desc)
-                    r["expected_keys"] = sorted(set(used))
-                    steps.append((pol, r))
-                except Exception as e:
-                    steps.append((pol, {"error": f"{type(e).__name__}: {str(e)[:200]}"}))
-            out["seq"].append({"seq": list(seq), "fast": fast, "steps": steps})
+                    predict(model, test_x, cell, desc, light=True)
+                except Exception:
+                    ctx.count("pre-update-prediction-raised")
+            try:
+                if entry == "upd:targets":
+                    model.set_train_data(targets=y_nan)
+                elif entry == "upd:targets:nonstrict":
+                    model.set_train_data(targets=y_nan, strict=False)
+                else:
+                    model.set_train_data(inputs=tx, targets=y_nan)
+            except Exception as e:
+                rec["steps"] = [(c["policy"], {"error": f"set_train_data: {type(e).__name__}: {str(e)[:200]}"})
+                                for c in run["cells"]]
+                out["seq"].append(rec)
+                model.set_train_data(tx, y_nan, strict=False)
+                continue
+        steps = []
+        used = []
+        for cell in run["cells"]:
+            pol = cell["policy"]
+            used.append(pol)
+            try:
+                r = predict(model, test_x, cell, desc)
+                r["expected_keys"] = sorted(set(used))
+                steps.append((pol, r))
+            except Exception as e:
+                steps.append((pol, {"error": f"{type(e).__name__}: {str(e)[:200]}"}))
+        rec["steps"] = steps
+        out["seq"].append(rec)
+    if not extras:
+        model.set_train_data(tx, ty, strict=False)
+        out["predictions_only"] = True
+        return out
     # ---- MLL (training mode), expected_log_prob, log_marginal
+    model.set_train_data(tx, y_nan, strict=False)
     model.train()
     lik.train()
     mll = gpytorch.mlls.ExactMarginalLogLikelihood(lik, model)
@@ -327,6 +476,95 @@ def run_real(ctx, model, lik, tx, ty, desc, test_x, obs_full, union, seqs, rng, 
     return out
 
 
+# ------------------------------------------------------------------ correspondence
+
+def model_patterns(rng, kind, P, ysize, quick):
+    pats = patterns(rng, ysize, quick, k_random=3 if quick else 6)
+    if quick and kind != "single":
+        pats = pats[:6]
+    if not quick and ysize > 6:
+        rng.shuffle(pats)
+        pats = pats[:40]
+    if kind == "batch":
+        # deliberately different patterns per batch element (first, so that every tier has them)
+        pats = list(dict.fromkeys(batch_patterns(rng, P["nb"], P["N"]) + [tuple(p) for p in pats[:3 if quick else None]]))
+    return pats
+
+
+def make_item(ctx, kind, idx, pat, desc, P):
+    import numpy as np
+    N = P["N"]
+    obs_full = np.array(pat, dtype=bool).reshape(P["nb"], N) if kind == "batch" else \
+        np.array(pat, dtype=bool).reshape(1, N)
+    if not obs_full.any(axis=0).any():
+        return None
+    union = obs_full.all(axis=0)          # 'mask': observed iff observed in every batch element
+    if not union.any():
+        ctx.count("skipped:mask-union-empty")
+        return None
+    item = {"kind": kind, "idx": idx, "pat": [bool(v) for v in pat], "desc": desc, "P": P,
+            "obs_full": obs_full, "union": union, "lines_mask": [], "lines_fill": [], "codes": line_codes(P)}
+    for b in range(P["nb"]):
+        item["lines_mask"].append(nan_line(P, b, union))
+        item["lines_fill"].append(nan_line(P, b, obs_full[b]))
+    item["line_union"] = union_line(obs_full) if P["nb"] > 1 else None
+    return item
+
+
+def item_lines(item):
+    return item["lines_mask"] + item["lines_fill"] + ([item["line_union"]] if item["line_union"] else [])
+
+
+def correspondence(ctx, extra=False):
+    import torch
+    torch.set_num_threads(2)
+    thorough = ctx.tier == "thorough" or extra
+    quick = not thorough
+    counts = {"single": 14, "batch": 5, "multi": 5} if quick else {"single": 24, "batch": 8, "multi": 8}
+    if os.environ.get("VERIF_C16_CASES"):
+        a, b_, c_ = [int(v) for v in os.environ["VERIF_C16_CASES"].split(",")]
+        counts = {"single": a, "batch": b_, "multi": c_}
+    seqs = SEQS_THOROUGH
+    work, lines = [], []
+    T = C.Timer()
+    for kind, cnt in counts.items():
+        for idx in range(cnt):
+            model, lik, tx, ty, desc, test_x, rng = build_model(ctx, kind, idx, thorough)
+            P = dense(model, lik, tx, ty, desc, test_x)
+            pats = model_patterns(rng, kind, P, ty.numel(), quick)
+            items = [it for it in (make_item(ctx, kind, idx, pat, desc, P) for pat in pats) if it is not None]
+            valid = [it["pat"] for it in items]
+            for item in items:
+                lines += item_lines(item)
+                runs = make_runs(rng, seqs, quick)
+                item["real"] = run_real(ctx, model, lik, tx, ty, desc, test_x, item["obs_full"], item["union"], runs, valid)
+                work.append(item)
+            ctx.count("models")
+    ctx.notes["phase1_s"] = round(T(), 1)
+    replies = drive(ctx, lines, 4 if quick else 10)
+    ctx.notes["phase2_s"] = round(T(), 1)
+    dist = {"missing_count": {}, "kind": {}, "batch_items_with_different_patterns_per_element": 0}
+    for item in work:
+        compare(ctx, item, replies)
+        k = str(int((~item["obs_full"]).sum()))
+        dist["missing_count"][k] = dist["missing_count"].get(k, 0) + 1
+        dist["kind"][item["kind"]] = dist["kind"].get(item["kind"], 0) + 1
+        if item["obs_full"].shape[0] > 1 and (item["obs_full"] != item["obs_full"][0]).any():
+            dist["batch_items_with_different_patterns_per_element"] += 1
+    ctx.notes["distribution"] = dist
+    _fold_cells(ctx)
+    ctx.notes["driver_requests"] = len(set(lines))
+    ctx.notes["phase3_s"] = round(T(), 1)
+
+
+def _fold_cells(ctx):
+    """Move the per-cell counters (policy x fast x max_eager_kernel_size x arrival) into the notes."""
+    cells = dict(ctx.notes.get("cells", {}))
+    for k in [k for k in ctx.counters if k.startswith("cell:")]:
+        cells[k[5:]] = cells.get(k[5:], 0) + ctx.counters.pop(k)
+    ctx.notes["cells"] = dict(sorted(cells.items()))
+
+
 def _slim(desc):
     return {k: v for k, v in desc.items() if k != "kernel_spec"}
 
@@ -338,14 +576,21 @@ def compare(ctx, item, replies):
     obs_full, union = item["obs_full"], item["union"]
     nmiss = int((~obs_full).sum())
     where = f"{desc['kernel']} lik={desc['lik']} {item['kind']}{item['idx']} n={N} s={Sx} observed={obs_full.astype(int).tolist()}"
-    exM = [parse_nan(replies[l]) for l in item["lines_mask"]]
-    exF = [parse_nan(replies[l]) for l in item["lines_fill"]]
+    exM = [parse_nan(replies[l], item["codes"]) for l in item["lines_mask"]]
+    exF = [parse_nan(replies[l], item["codes"]) for l in item["lines_fill"]]
     if any(e is None for e in exM + exF):
         ctx.count("discarded_singular")
         return
+    if item.get("line_union"):
+        # the model's reduction of a batch of patterns (ExactGP.obsUnion) is what the 'mask' reference deletes
+        ru = replies[item["line_union"]]
+        if ru.strip() != "ok " + " ".join("1" if v else "0" for v in union):
+            ctx.broke("correspondence", "ExactGP.obsUnion vs the harness' batch reduction", f"{ru} on {where}")
 
     def rp(extra):
         d = {"kind": item["kind"], "idx": item["idx"], "pattern": item["pat"], "desc": _slim(desc)}
+        if item.get("label"):
+            d["label"] = item["label"]
         d.update(extra)
         if len(item["lines_fill"][0]) < 20000:
             d["nan_request"] = item["lines_fill"][0]
@@ -386,17 +631,26 @@ def compare(ctx, item, replies):
     if max(v[0] for v in tols.values()) > 1e6:
         ctx.count("discarded_cond>1e6")
         return
+    patname = "".join("1" if v else "0" for v in item["pat"])
     # ---- predictions along every policy sequence on one object
     for run in real["seq"]:
         seqname = ">".join(run["seq"]) + (":fast" if run["fast"] else ":exact")
+        if run["entry"] != "fresh":
+            seqname += f" after [{'>'.join(c['policy'] for c in run['pre'])} on another pattern, {run['entry'][4:]} update]"
+        runkey = run["entry"] + "|" + ",".join(c["eager"] + {None: "", False: "a", True: "d"}[c.get("detach")]
+                                                for c in run["cells"])
         for step, (pol, r) in enumerate(run["steps"]):
-            ctx.case(f"{item['kind']}{item['idx']}|{''.join('1' if v else '0' for v in item['pat'])}|{seqname}|{step}",
+            cell = run["cells"][step]
+            eager = is_eager(cell["eager"], N, Sx)
+            ctx.case(f"{item.get('label', '')}{item['kind']}{item['idx']}|{patname}|{seqname}|{runkey}|{step}",
                      nontrivial=nmiss > 0,
                      sample={"model": _slim(desc), "observed": obs_full.astype(int).tolist(), "sequence": seqname,
-                             "step": step, "policy": pol})
-            extra = {"sequence": run["seq"], "fast": run["fast"], "step": step, "policy": pol}
+                             "step": step, "cell": cell, "arrival": run["entry"]})
+            extra = {"sequence": run["seq"], "fast": run["fast"], "step": step, "policy": pol, "run": _run_payload(run)}
             if pol == "ignore":
                 continue   # with NaN targets and no policy the outputs are NaN by design; only its cache effect matters
+            ctx.count(f"cell:{pol}:{'fast' if cell['fast'] else 'exact'}:max_eager={cell['eager']}"
+                      f"({'eager' if eager else 'lazy'}):{'fresh' if run['entry'] == 'fresh' else 'after-update'}")
             if "error" in r:
                 ctx.fail(f"exception:{pol}", f"model(x*) under policy {pol} raised {r['error']} on {where} seq={seqname}",
                          rp(extra))
@@ -408,15 +662,17 @@ def compare(ctx, item, replies):
                 ex = exM[b] if pol == "mask" else exF[b]
                 em, ec = (ex["meanMask"], ex["covMask"]) if pol == "mask" else (ex["meanFill"], ex["covFill"])
                 kappa, rel, sc_mean, sc_cov = tols[(pol, b)]
-                check(f"posterior-mean:{pol}", f"model(x*).mean under '{pol}' (seq {seqname}, step {step})",
-                      r["mean"][b], em, rel * sc_mean + 1e-12, extra)
+                check(f"posterior-mean:{pol}", f"model(x*).mean under '{pol}' (seq {seqname}, step {step}, "
+                      f"max_eager_kernel_size={cell['eager']})", r["mean"][b], em, rel * sc_mean + 1e-12, extra)
                 tol_c = rel * sc_cov + 1e-12
                 got_c = r["cov"][b]
-                # tie: the implementation vs what the translator says the code is (GENERATED exact_prediction)
-                gm, gc = ex.get("gen", {}).get(pol, (None, None))
+                # tie: the implementation vs what the translator says the code is (GENERATED exact_prediction in the
+                # branch configuration of this step)
+                gm, gc = ex.get("gen", {}).get((pol, cfg_code(P, eager)), (None, None))
                 ctx.count("generated-vs-impl")
                 if gm is None or gc is None:
-                    ctx.broke("correspondence", "generated algebra returned no value", f"policy {pol} on {where}")
+                    if _DRIVER["name"] == "C16":
+                        ctx.broke("correspondence", "generated algebra returned no value", f"policy {pol} on {where}")
                 else:
                     for nm, got_, exp_, tl in (("mean", r["mean"][b], gm[:, 0], rel * sc_mean + 1e-12), ("covar", got_c, gc, tol_c)):
                         if np.isnan(np.asarray(got_, dtype=float)).any() or _absmax(np.asarray(got_) - exp_) > tl:
@@ -432,10 +688,12 @@ def compare(ctx, item, replies):
                              f"|impl - ignoring-policy model| = {_absmax(got_c - ex['covIgn']):.1e} on {where} seq={seqname}",
                              rp(dict(extra, observable="covariance", got=got_c.tolist(), expected=ec.tolist())))
                 else:
-                    check(f"posterior-covar:{pol}", f"model(x*).covariance_matrix under '{pol}' (seq {seqname}, step {step})",
-                          got_c, ec, tol_c, extra)
+                    check(f"posterior-covar:{pol}", f"model(x*).covariance_matrix under '{pol}' (seq {seqname}, step {step}, "
+                          f"max_eager_kernel_size={cell['eager']})", got_c, ec, tol_c, extra)
                     check(f"posterior-variance:{pol}", f"model(x*).variance under '{pol}' (seq {seqname})",
                           r["var"][b], np.diag(ec), tol_c, extra)
+    if real.get("predictions_only"):
+        return
     # ---- MLL under mask, rescaled by the observed count
     for e in real["rejected"]:
         ctx.count("rejected:" + e.split(":")[0] + ":" + e.split(":")[1])
@@ -458,8 +716,7 @@ def compare(ctx, item, replies):
             # documented scaling: the value is divided by the FULL number of targets N
             check("mll:mask:rescaled", "N * ExactMarginalLogLikelihood('mask') vs log N(y_o; m_o, A_oo)",
                   [got * N], [logp], rel * scale + 1e-12, {"n_obs": cnt, "N": N})
-            ctx.case(f"mll|{item['kind']}{item['idx']}|{''.join('1' if v else '0' for v in item['pat'])}|{b}",
-                     nontrivial=nmiss > 0)
+            ctx.case(f"mll|{item['kind']}{item['idx']}|{patname}|{b}", nontrivial=nmiss > 0)
     # ---- expected_log_prob / log_marginal
     for b in range(nb):
         mu = P["mj"][b][:N]
@@ -509,32 +766,226 @@ def compare(ctx, item, replies):
                   [real["mll_mask"][0] * N], [real["fresh"]["mll"] * cnt], 2 * rel * scale + 1e-12)
 
 
-# ------------------------------------------------------------------ search / replay
+def _run_payload(run):
+    """JSON-able description of one run (arrival + cells), enough for `replay` to re-execute it."""
+    d = {"seq": run["seq"], "fast": run["fast"], "entry": run["entry"], "cells": run["cells"]}
+    if run["entry"] != "fresh":
+        d.update(pre=run["pre"], prev=run["prev"], prev_pattern=run.get("prev_pattern"))
+    return d
+
+
+# ------------------------------------------------------------------ failing-input search (targeted, bounded)
+
+# which generated functions a corollary of Props/C16.lean is about
+THEOREM_FUNCS = {"gen_mean_cache_eq": ["mean_cache_ignore", "mean_cache_mask", "mean_cache_fill"],
+                 "gen_mean_missing_obs_eq_delete": ["exact_predictive_mean", "mean_cache_mask", "mean_cache_fill"],
+                 "gen_covar_missing_obs_eq_delete": ["exact_predictive_covar_missing_obs", "exact_predictive_covar"]}
+# branch atoms of the generated decision trees of the source as it was when the proofs were written
+BASE_ATOMS = {"split": ["eager"], "mean_cache_ignore": [], "mean_cache_mask": [], "mean_cache_fill": [],
+              "exact_predictive_mean": ["policy=ignore", "policy=mask"],
+              "exact_predictive_covar": ["fast", "skip", "policy=ignore", "ttIsTensor", "policy=mask", "ttDim2"],
+              "exact_predictive_covar_missing_obs": ["policy=mask"],
+              "exact_prediction": ["eager", "policy=ignore", "fast", "skip", "ttDim2", "policy=mask"]}
+# settings axis of the real code behind a branch atom
+ATOM_AXIS = {"eager": "eager", "ttIsTensor": "eager", "fast": "fast", "detach": "detach", "ttDim2": "batch",
+             "cache4d": "batch", "skip": "skip"}
+
+
+def broken_theorems(broken):
+    """Names of the theorems of Props/C16.lean inside which `lake build` reported an error."""
+    path = C.module_file(PROP_MODULES[0])
+    try:
+        src = open(path).read().split("\n")
+    except OSError:
+        return []
+    starts = [(i + 1, m.group(1)) for i, l in enumerate(src)
+              for m in [re.match(r"\s*(?:private\s+)?theorem\s+([\w.']+)", l)] if m]
+    names = []
+    for kind, _, detail in broken:
+        if kind != "proof":
+            continue
+        for m in re.finditer(r"Props/C16\.lean:(\d+):", detail):
+            ln = int(m.group(1))
+            owner = [nm for s, nm in starts if s <= ln]
+            if owner and owner[-1] not in names:
+                names.append(owner[-1])
+    return names
+
+
+def search_plan(ctx, broken):
+    """Derive from what broke which settings axes / arrivals to try first."""
+    thms = broken_theorems(broken)
+    summary = ctx.notes.get("gen_summary") or {}
+    funcs = [f for t in thms for f in THEOREM_FUNCS.get(t, [])] or list(BASE_ATOMS)
+    new_atoms = []
+    for f in funcs:
+        for a in (summary.get(f) or {}).get("atoms", []):
+            if a not in BASE_ATOMS.get(f, []) and a not in new_atoms:
+                new_atoms.append(a)
+    axes = [ATOM_AXIS[a] for a in new_atoms if a in ATOM_AXIS]
+    history_first = any(k in ("translator", "driver") for k, _, _ in broken) or \
+        any(k == "correspondence" and "mean_cache" in n for k, n, _ in broken)
+    text = " ".join(str(d) for _, _, d in broken) + " " + str(ctx.notes.get("gen_error", ""))
+    if "self." in text:
+        history_first = True      # a new attribute of the strategy object: state that may survive an update
+    return {"theorems": thms, "functions": list(dict.fromkeys(funcs)), "new_atoms": new_atoms,
+            "axes": list(dict.fromkeys(axes)), "history_first": history_first}
+
+
+def probe_generated(ctx):
+    """Exact probe: generated `exact_prediction` vs the theorem-backed model under EVERY branch configuration (skip off)
+    on two small inputs; returns the configurations (decoded) in which they differ."""
+    import numpy as np
+    out = []
+    if _DRIVER["name"] != "C16":
+        return out
+    items = []
+    for kind in ("single", "batch"):
+        model, lik, tx, ty, desc, test_x, rng = build_model(ctx, kind, 0, False, label="probe")
+        P = dense(model, lik, tx, ty, desc, test_x)
+        N = P["N"]
+        obs = np.array([i != 1 for i in range(N)], dtype=bool)
+        items.append((kind, P, nan_line(P, 0, obs, all_codes=True)))
+    try:
+        replies = drive(ctx, [l for _, _, l in items], 1)
+    except RuntimeError:
+        return out
+    codes = line_codes(None, all_codes=True)
+    for kind, P, line in items:
+        ex = parse_nan(replies[line], codes)
+        if ex is None:
+            continue
+        for (pol, code), (gm, gc) in ex["gen"].items():
+            em, ec = (ex["meanMask"], ex["covMask"]) if pol == "mask" else (ex["meanFill"], ex["covFill"])
+            bad = []
+            if gm is None or _absmax(gm[:, 0] - em) > 1e-13 * (1 + _absmax(em)):
+                bad.append("mean")
+            if gc is None or _absmax(gc - ec) > 1e-13 * (1 + _absmax(ec)):
+                bad.append("covar")
+            if bad:
+                out.append({"policy": pol, "code": code, "fast": bool(code % 2), "detach": bool((code // 4) % 2),
+                            "eager": bool((code // 8) % 2), "ttDim2": bool((code // 16) % 2),
+                            "ttIsTensor": bool((code // 32) % 2), "differs": bad})
+    return out
+
 
 def search(ctx, broken):
-    if not ctx.failures:
-        correspondence(ctx, extra=True)
+    """Targeted, bounded failing-input search (only when something broke and no failing input is known yet)."""
+    if ctx.failures:
+        return
+    import torch
+    torch.set_num_threads(2)
+    quick = ctx.tier == "quick"
+    deadline = max(_T0 + (80.0 if quick else 540.0), time.time() + (8.0 if quick else 60.0))
+    plan = search_plan(ctx, broken)
+    diffs = probe_generated(ctx)
+    reach = [d for d in diffs if d["ttIsTensor"] == d["eager"]]       # exact_prediction hands tensors on iff eager
+    plan["generated_differs_from_model_in"] = sorted({
+        f"{d['policy']}:{'eager' if d['eager'] else 'lazy'}:{'fast' if d['fast'] else 'exact'}:"
+        f"{'unbatched' if d['ttDim2'] else 'batched'}:{'+'.join(d['differs'])}" for d in reach})
+    plan["unreachable_differences"] = len(diffs) - len(reach)
+    # ---- cell order: configurations where the generated code provably leaves the model first, then the axes of the
+    #      new branch atoms of the functions whose theorem broke, then everything else
+    force_sets = []
+    if reach:
+        for eager in sorted({d["eager"] for d in reach}):
+            sel = [d for d in reach if d["eager"] == eager]
+            force_sets.append({"eager": ["default", "n+s"] if eager else ["0", "n"],
+                               "fast": sorted({d["fast"] for d in sel}), "detach": sorted({d["detach"] for d in sel}),
+                               "kinds": (["single", "multi"] if any(d["ttDim2"] for d in sel) else []) +
+                                        (["batch"] if any(not d["ttDim2"] for d in sel) else [])})
+    if "eager" in plan["axes"]:
+        force_sets.append({"eager": ["0", "n"]})
+    if "fast" in plan["axes"]:
+        force_sets.append({"fast": [True]})
+    if "detach" in plan["axes"]:
+        force_sets.append({"detach": [True]})
+    if "batch" in plan["axes"]:
+        force_sets.append({"kinds": ["batch"]})
+    if plan["history_first"]:
+        force_sets.insert(0 if not reach else len(force_sets),
+                          {"entries": ["upd:targets", "upd:inputs+targets", "upd:targets:nonstrict"]})
+    force_sets.append({})                                             # finally: the unrestricted cell space
+    plan["rounds"] = []
+    ctx.notes["search_plan"] = plan
+    rnd = 0
+    size = 3
+    while time.time() < deadline and not ctx.failures:
+        force = dict(force_sets[min(rnd, len(force_sets) - 1)])
+        kinds = force.pop("kinds", None) or ["single", "batch", "multi"]
+        t0 = time.time()
+        n_items = search_round(ctx, rnd, kinds, size, force, deadline)
+        plan["rounds"].append({"round": rnd, "force": force, "kinds": kinds, "items": n_items,
+                               "failures": len(ctx.failures), "s": round(time.time() - t0, 1)})
+        rnd += 1
+        if rnd >= len(force_sets):
+            size = min(size + 3, 12)
+    _fold_cells(ctx)
+    plan["wall_s_at_end"] = round(time.time() - _T0, 1)
+    print(f"C16 search: broken theorems {plan['theorems']} about {plan['functions'][:4]}; new branch atoms {plan['new_atoms']}; "
+          f"generated != model in {len(reach)} reachable configuration(s) "
+          f"{[(d['policy'], 'eager' if d['eager'] else 'lazy', 'fast' if d['fast'] else 'exact') for d in reach][:6]}; "
+          f"history first: {plan['history_first']}; {len(plan['rounds'])} round(s), "
+          f"{sum(r['items'] for r in plan['rounds'])} item(s), {len(ctx.failures)} failure(s), "
+          f"t={plan['wall_s_at_end']}s"[:900])
 
+
+def search_round(ctx, rnd, kinds, n_models, force, deadline):
+    """One bounded round: a few small models of `kinds`, a few patterns each, predictions only, cells per `force`."""
+    work, lines = [], []
+    for j in range(n_models):
+        if time.time() > deadline:
+            break
+        kind = kinds[j % len(kinds)]
+        idx = 1000 * (rnd + 1) + j
+        model, lik, tx, ty, desc, test_x, rng = build_model(ctx, kind, idx, False, label="search")
+        P = dense(model, lik, tx, ty, desc, test_x)
+        pats = model_patterns(rng, kind, P, ty.numel(), True)
+        items = [it for it in (make_item(ctx, kind, idx, pat, desc, P) for pat in pats) if it is not None]
+        valid = [it["pat"] for it in items]
+        items = [it for it in items if not it["obs_full"].all()]
+        rng.shuffle(items)
+        for item in items[:3]:
+            item["label"] = "search"
+            lines += item_lines(item)
+            runs = make_runs(rng, SEQS_THOROUGH, True, force)
+            item["real"] = run_real(ctx, model, lik, tx, ty, desc, test_x, item["obs_full"], item["union"], runs,
+                                    valid, extras=False)
+            work.append(item)
+    if not work:
+        return 0
+    replies = drive(ctx, lines, 4)
+    for item in work:
+        compare(ctx, item, replies)
+    ctx.count("search-items", len(work))
+    return len(work)
+
+
+# ------------------------------------------------------------------ replay
 
 def replay(ctx, payload):
-    import numpy as np
     import torch
     torch.set_num_threads(2)
     case = payload.get("case", payload)
     os.environ["VERIF_SEED"] = str(payload.get("seed", C.seed()))
     thorough = payload.get("tier") == "thorough"
-    model, lik, tx, ty, desc, test_x, rng = build_model(ctx, case["kind"], case["idx"], thorough)
+    label = case.get("label") or "model"
+    model, lik, tx, ty, desc, test_x, rng = build_model(ctx, case["kind"], case["idx"], thorough, label=label)
     P = dense(model, lik, tx, ty, desc, test_x)
-    N = P["N"]
-    pat = case["pattern"]
-    obs_full = np.array(pat, dtype=bool).reshape(P["nb"], N) if case["kind"] == "batch" else np.array(pat, dtype=bool).reshape(1, N)
-    union = obs_full.all(axis=0)
-    item = {"kind": case["kind"], "idx": case["idx"], "pat": pat, "desc": desc, "P": P, "obs_full": obs_full,
-            "union": union, "lines_mask": [nan_line(P, b, union) for b in range(P["nb"])],
-            "lines_fill": [nan_line(P, b, obs_full[b]) for b in range(P["nb"])]}
-    seqs = [tuple(case["sequence"])] if "sequence" in case else SEQS_THOROUGH
-    item["real"] = run_real(ctx, model, lik, tx, ty, desc, test_x, obs_full, union, seqs, rng, quick=False)
-    replies = _lines_parallel("C16", item["lines_mask"] + item["lines_fill"])
+    item = make_item(ctx, case["kind"], case["idx"], case["pattern"], desc, P)
+    if item is None:
+        return True
+    if case.get("label"):
+        item["label"] = case["label"]
+    if "run" in case:
+        runs = [dict(case["run"])]
+    else:
+        seqs = [tuple(case["sequence"])] if "sequence" in case else SEQS_THOROUGH
+        runs = [{"seq": list(s), "fast": f, "entry": "fresh",
+                 "cells": [{"policy": p, "fast": f, "eager": "default"} for p in s]}
+                for s in seqs for f in ([case["fast"]] if "fast" in case else [False, True])]
+    item["real"] = run_real(ctx, model, lik, tx, ty, desc, test_x, item["obs_full"], item["union"], runs, [])
+    replies = drive(ctx, item_lines(item))
     compare(ctx, item, replies)
     for f in ctx.failures[:5]:
         print("replay:", f["key"], f["what"][:300])
